@@ -3,6 +3,7 @@ import Driver.BuilderOps
 import Driver.ArithOps
 import Driver.TypesCodec
 import Driver.BristolOps
+import Driver.ScanOps
 /-! gvdriver — the model side of the correspondence checks: one JSON case per line on stdin,
 one JSON result per line on stdout. Imports models only (no proofs, no Mathlib). -/
 open Lean GVD
@@ -18,6 +19,8 @@ def handle (case : Json) : Json :=
   | "literal_check" => literalCheck case
   | "bristol_export" => bristolExport case
   | "bristol_import" => bristolImport case
+  | "scan" => scanOp case
+  | "render" => renderOp case
   | op => Json.mkObj [("error", s!"unknown op {op}")]
 
 partial def loop (h : IO.FS.Stream) (out : IO.FS.Stream) : IO Unit := do
